@@ -801,6 +801,13 @@ class Ctx:
         return list(r) if isinstance(r, (tuple, list)) else r  # a contract's own sequence value (hook __tuple__) is kept
 
     def ev_Dict(self, n):
+        # optional hook ``on_dict(cx, node)``: a contract may give a dict display (e.g. one with a symbolic key) its
+        # own abstract map value; contracts without the hook are unaffected
+        hook = getattr(self.contract, "on_dict", None)
+        if hook is not None:
+            r = hook(self, n)
+            if r is not NotImplemented:
+                return r
         d = {}
         for k, v in zip(n.keys, n.values):
             if k is None:
@@ -814,6 +821,20 @@ class Ctx:
                 raise Unsupported("symbolic dict key")
             d[kk] = self.ev(v)
         return d
+
+    def ev_Set(self, n):
+        # set display of concrete hashable elements ({"LR", "RL"}): the value is the tuple of the distinct elements in
+        # first-occurrence order (as for set comprehensions: code only tests membership / iterates)
+        out = []
+        for e in n.elts:
+            if isinstance(e, ast.Starred):
+                raise Unsupported(f"starred element in a set display at line {n.lineno}")
+            v = self.ev(e)
+            if is_z3(v) or isinstance(v, (Opaque, Ref, Arr)) or (isinstance(v, tuple) and any(is_z3(x) for x in v)):
+                raise Unsupported(f"symbolic element in a set display at line {n.lineno}")
+            if v not in out:
+                out.append(v)
+        return tuple(out)
 
     def ev_IfExp(self, n):
         c = self.truth(self.ev(n.test))
@@ -889,6 +910,8 @@ class Ctx:
             elif (isinstance(a, Opaque) and not is_z3(b) and not isinstance(b, Opaque)) or \
                     (isinstance(b, Opaque) and not is_z3(a) and not isinstance(a, Opaque)):
                 r = False  # an opaque value is, by kind enumeration, none of the python-level sentinels
+            elif isinstance(a, Opaque) and isinstance(b, Opaque):
+                r = a.z == b.z  # two unknown values: identity is as unknown as their equality (was: unsupported)
             else:
                 raise Unsupported(f"'is' on {a!r}, {b!r} at line {n.lineno}")
             return r if isinstance(op, ast.Is) else Not(r)
@@ -1943,6 +1966,9 @@ class Ctx:
         mod |= {nm for nm in loaded_names(s.body) if isinstance(self.env.get(nm), dict)}
         # ---- init
         self.env[f"_it{k}"] = 0
+        # (opt-in ``spec.exact_last``: remember the binding the loop variable had before the loop, see the exit branch)
+        _unbound = object()
+        prev_binding = self.env.get(s.target.id, _unbound) if isinstance(s.target, ast.Name) else _unbound
         if seq_mode:
             self.check_inv(spec, k, "init", s.lineno, _it=0)
         else:
@@ -1983,6 +2009,18 @@ class Ctx:
             raise PathEnd("loop body end")
         else:
             # loop finished; python leaves the loop variable at its last value -- havoc'd unless never entered
+            if not seq_mode and getattr(spec, "exact_last", False) and isinstance(s.target, ast.Name):
+                # opt-in exact python semantics (set ``loop.exact_last = True`` on the Loop object): after >= 1
+                # iterations the variable holds the LAST item start + (t-1)*step; after 0 iterations it keeps the binding it
+                # had before the loop, or stays unbound (a later read then goes to the contract's ``attr(cx, None, name)``
+                # hook, which may raise PyRaise("UnboundLocalError"))
+                if self.decide(t >= 1, s.lineno):
+                    self.env[s.target.id] = z3.simplify(Z(mk_item(t - 1)))
+                elif prev_binding is _unbound:
+                    self.env.pop(s.target.id, None)
+                else:
+                    self.env[s.target.id] = prev_binding
+                return
             if not seq_mode:
                 last = self.havoc_value(self.env[s.target.id], s.target.id) if isinstance(s.target, ast.Name) else None
                 if last is not None:
